@@ -33,7 +33,7 @@ impl Check for C04 {
         "C04"
     }
     fn rule(&self) -> String {
-        "small cases: haystack 2-14 chars (70%, brute force over all alignments cross-checked against the exact DP) or 15-64 chars (exact expanded-state DP), needle 1-5 chars, palettes of 2-4 symbols from {a b A B 1 space / - : _ . é σ Σ tab} (plus 20% general palettes), all three bonus profiles, ignore_case x normalize, every applicable representation pair; each case is evaluated with prefer_prefix off (sandwich: naive full-matrix recurrence <= fuzzy_match <= optimum over all alignments; one-char needle == optimum; fuzzy_match == fuzzy_indices) and on (off <= on <= off+8). Non-trivial: at least two alignments with different reference scores exist (enumeration capped at 5000 alignments). Distinct by case hash.".into()
+        "small cases: haystack 2-14 chars (70%, brute force over all alignments cross-checked against the exact DP) or 15-64 chars (exact expanded-state DP), or (8%) a 3-10 character head and a 3-8 character tail over the same palette with 30-185 filler characters between them (needle taken from the tail; two groups of occurrences far apart), needle 1-5 chars, palettes of 2-4 symbols from {a b A B 1 space / - : _ . é σ Σ tab} (plus 20% general palettes), all three bonus profiles, ignore_case x normalize, every applicable representation pair; each case is evaluated with prefer_prefix off (sandwich: naive full-matrix recurrence <= fuzzy_match <= optimum over all alignments; one-char needle == optimum; fuzzy_match == fuzzy_indices) and on (off <= on <= off+8). Non-trivial: at least two alignments with different reference scores exist (enumeration capped at 5000 alignments). Distinct by case hash.".into()
     }
     fn assumptions(&self) -> Vec<String> {
         vec!["needle is normalized".into(), "the reference scheme (C03's scorer) defines the value of an alignment; the naive recurrence is written from the README description with ties preferring the gap branch".into()]
@@ -48,7 +48,7 @@ impl Check for C04 {
         let len = prop_oneof![70 => 2usize..=14, 30 => 15usize..=64];
         // 0.5% of the haystacks sit behind 65534..70000 filler characters no needle character matches
         let far = prop_oneof![199 => Just(0u32), 1 => proptest::sample::select(vec![65_534u32, 65_535, 65_536, 65_537, 70_000])];
-        (c04_palette(), len, gen::any_cfg(), needle_mode4(), far)
+        let dense = (c04_palette(), len, gen::any_cfg(), needle_mode4(), far)
             .prop_flat_map(|(pal, n, cfg, mode, far)| (Just(pal), proptest::collection::vec(any::<u16>(), n..=n), Just(cfg), Just(mode), Just(far)))
             .prop_map(|(pal, sels, mut cfg, mode, far)| {
                 cfg.prefer_prefix = false;
@@ -56,8 +56,20 @@ impl Check for C04 {
                 let needle = derive_needle(&hay, &pal, cfg, &mode);
                 let hay = if far > 0 && hay.len() <= 24 { Text { head: vec![], motif: vec!['q'], tile_to: far, tail: hay } } else { Text::plain(hay) };
                 MCase { hay, needle: Text::plain(needle), cfg, prior: vec![], cap_mode: 2 }
-            })
-            .boxed()
+            });
+        // two groups of occurrences a long way apart (C04-r5-1 stopped building matrix columns ~36 x needle length
+        // behind the greedy match): a head and a tail over the same palette, 30..185 filler characters between
+        // them, the needle taken from the tail; at most 200 characters, so the references see the whole haystack
+        let split = (c04_palette(), 3usize..=10, 3usize..=8, 30u32..=185, proptest::sample::select(vec!['q', ' ', '/', '_', 'Q']), gen::any_cfg(), proptest::collection::vec(any::<u16>(), 1..=5))
+            .prop_flat_map(|(pal, nh, nt, gap, fill, cfg, pick)| (Just(pal), proptest::collection::vec(any::<u16>(), nh..=nh), proptest::collection::vec(any::<u16>(), nt..=nt), Just(gap), Just(fill), Just(cfg), Just(pick)))
+            .prop_map(|(pal, hsel, tsel, gap, fill, mut cfg, pick)| {
+                cfg.prefer_prefix = false;
+                let head = text_from(&pal, &hsel);
+                let tail = text_from(&pal, &tsel);
+                let needle = derive_needle(&tail, &pal, cfg, &NeedleMode::Subseq(pick));
+                MCase { hay: Text { head, motif: vec![fill], tile_to: gap, tail }, needle: Text::plain(needle), cfg, prior: vec![], cap_mode: 2 }
+            });
+        prop_oneof![92 => dense, 8 => split].boxed()
     }
     fn run(&self, case: &MCase) -> Outcome {
         let mut out = Outcome::default();
@@ -103,6 +115,9 @@ impl Check for C04 {
             return out;
         }
         out.nontrivial = brute.map_or(false, |x| x.2 >= 2);
+        if case.hay.tile_to > 0 && !case.hay.head.is_empty() {
+            out.label("two-groups-far-apart");
+        }
         if hay.len() <= 14 {
             out.label("brute-force-size");
         } else {
